@@ -82,6 +82,20 @@ def cases(ctx):
                            tag="tc28-state", info=dict(st=st, es=es))
                 yield dict(op="is_emergency " + m, real=(A + "is_emergency", [m]), expect=e2 if st in (0, 1, 2) else None,
                            tag="tc28-isem", info=dict(st=st, es=es))
+    # TC 28: subtype x emergency state x Mode A code (is_emergency depends on the reported state only; a squawk that
+    # conventionally goes with an emergency — 7500 / 7600 / 7700 — must not turn state 0 into an emergency)
+    from props.C08 import id13
+    squawks = [(7, 5, 0, 0), (7, 6, 0, 0), (7, 7, 0, 0), (0, 0, 0, 0), (7, 7, 7, 7), (1, 2, 0, 0), (7, 7, 0, 1)]
+    for (qa, qb, qc, qd) in squawks:
+        for x in (0, 1):
+            for st in (0, 1):
+                for es in range(8):
+                    m = hex_of(spec.adsb_frame(rng, 28, [(5, 3, st), (8, 3, es), (11, 13, id13(qa, qb, qc, qd, x))], df=rng.choice([17, 18])))
+                    yield dict(op="is_emergency " + m, real=(A + "is_emergency", [m]), expect=b(st == 1 and es != 0),
+                               tag="tc28-isem-squawk", info=dict(st=st, es=es))
+                    if st == 1:
+                        yield dict(op="emergency_state " + m, real=(A + "emergency_state", [m]), expect=str(es), tag="tc28-state-squawk",
+                                   info=dict(st=st, es=es))
     # --- TC 29 subtype 1 (DO-260B)
     for alt in range(2048):
         for src in (0, 1):
